@@ -19,6 +19,10 @@ pub struct CfgBits {
     /// map as seen by extension code); implies an on_parse callback
     #[serde(default)]
     pub probe: bool,
+    /// call preserve_code_transform AFTER generate_dwarf (generate_dwarf(true) switches the capture on; a later
+    /// preserve_code_transform(false) switches it off again while DWARF generation stays on)
+    #[serde(default)]
+    pub late_code_transform: bool,
 }
 
 impl CfgBits {
@@ -38,6 +42,7 @@ impl CfgBits {
             on_parse: m & 128 != 0,
             on_instr_loc: m & 256 != 0,
             probe: m & 512 != 0,
+            late_code_transform: false,
         }
     }
 
